@@ -312,6 +312,14 @@ func (val Value) Equals(other Value) Value {
 			}
 		}
 	case ty.IsSetType():
+		if !val.IsWhollyKnown() || !other.IsWhollyKnown() {
+			// A member that is unknown, or that contains an unknown value at
+			// any depth, may turn out to be equal to a member of the other
+			// set (or to another member of its own set), so nothing definite
+			// can be said about the two sets yet.
+			return unknownResult()
+		}
+
 		s1 := val.v.(set.Set[interface{}])
 		s2 := other.v.(set.Set[interface{}])
 		equal := true
